@@ -401,6 +401,7 @@ func checkColl2(c coll2Case, o *kit.Obs) error {
 		}
 		var hits, borderline, prunable int
 		var err error
+		droppedBorderline = 0
 		switch q.Kind {
 		case "ray":
 			hits, borderline, prunable, err = rayQuery2(ix, segs, ptrIdx, boxMin, boxMax, q, strict)
@@ -454,7 +455,41 @@ func checkColl2(c coll2Case, o *kit.Obs) error {
 			o.Label(q.Kind + ":multi-hit")
 		}
 		if borderline > 0 {
-			o.Label(q.Kind + ":borderline-leaf")
+			o.Label(q.Kind + ":borderline-leaf:" + reg)
+		}
+		if droppedBorderline > 0 {
+			o.Label(q.Kind + ":borderline-hit-skipped-by-index")
+		}
+		if q.Kind == "ray" || q.Kind == "segment" {
+			zero, face := false, false
+			for k := 0; k < 2; k++ {
+				dk := q.B[k]
+				if q.Kind == "segment" {
+					dk = q.B[k] - q.A[k]
+				}
+				if dk == 0 {
+					zero = true
+				}
+				for _, i := range ix.objs {
+					if q.A[k] == boxMin[i][k] || q.A[k] == boxMax[i][k] {
+						face = true
+					}
+				}
+			}
+			if zero {
+				o.Label(q.Kind + ":zero-direction-component")
+			}
+			if face {
+				o.Label(q.Kind + ":origin-on-box-face-plane")
+			}
+		}
+		if q.Kind == "sphere" || q.Kind == "circle" {
+			for _, i := range ix.objs {
+				if boxDist2(q.A[:], boxMin[i], boxMax[i]) == q.R*q.R {
+					o.Label(q.Kind + ":radius-equals-box-distance")
+					break
+				}
+			}
 		}
 		if ix.counter != nil {
 			per := n
@@ -591,6 +626,9 @@ func circleQuery2(ix *index2, segs []*model2d.Segment, boxMin, boxMax [][]float6
 	if got && !anyAll {
 		return 0, 0, 0, fmt.Errorf("CircleCollision(%v, %v) is true but no segment touches the disc", q.A, q.R)
 	}
+	if anyAll && !got {
+		droppedBorderline++
+	}
 	if !got && anyMust {
 		return 0, 0, 0, fmt.Errorf("CircleCollision(%v, %v) is false but %d segment(s) touch the disc", q.A, q.R, nhits)
 	}
@@ -623,6 +661,9 @@ func multiQuery2(ix *index2, segs []*model2d.Segment, boxMin, boxMax [][]float64
 		if got && !anyAll {
 			return 0, 0, 0, fmt.Errorf("SegmentCollision(%v - %v) is true but no segment of the set meets it", q.A, q.B)
 		}
+		if anyAll && !got {
+			droppedBorderline++
+		}
 		if !got && anyMust {
 			return 0, 0, 0, fmt.Errorf("SegmentCollision(%v - %v) is false but %d segment(s) meet it", q.A, q.B, nhits)
 		}
@@ -647,6 +688,9 @@ func multiQuery2(ix *index2, segs []*model2d.Segment, boxMin, boxMax [][]float64
 		got := ix.multi.RectCollision(rect)
 		if got && !anyAll {
 			return 0, 0, 0, fmt.Errorf("RectCollision(%v .. %v) is true but no segment meets the box", q.A, q.B)
+		}
+		if anyAll && !got {
+			droppedBorderline++
 		}
 		if !got && anyMust {
 			return 0, 0, 0, fmt.Errorf("RectCollision(%v .. %v) is false but %d segment(s) meet the box", q.A, q.B, nhits)
